@@ -105,14 +105,35 @@ def encodeStores (l : AList CStore) : Json :=
   Json.arr ((sortInt (·.1) l).map fun p =>
     J.obj [("shard", J.int p.1), ("ups", Json.arr ((sortOn (·.name.toHex) p.2).map encodeEntry).toArray)]).toArray
 
-def decodeObs (j : Json) : Except String Obs := do
+def isPrefixB : Str → Str → Bool
+  | [], _ => true
+  | _, [] => false
+  | a :: as, b :: bs => a == b && isPrefixB as bs
+
+def isInfixB (pat : Str) : Str → Bool
+  | [] => pat.isEmpty
+  | t@(_ :: rest) => isPrefixB pat t || isInfixB pat rest
+
+/-- what the implementation answered. `error` = an error in words this harness does not know: it counts as the
+    refusal naming the leader iff its text contains the name of the leader it has to name (the property asks for
+    an error naming the leader, not for a wording). -/
+inductive RawObs
+  | obs (o : Obs)
+  | error (text : Str)
+
+def decodeObs (j : Json) : Except String RawObs := do
   match (← J.getStr j "k") with
-  | "refused" => pure (.refusedNaming (← J.getInt j "shard") (← J.getHex j "leader"))
-  | "silent" => pure .silent
-  | _ => pure .other
+  | "refused" => pure (.obs (.refusedNaming (← J.getInt j "shard") (← J.getHex j "leader")))
+  | "silent" => pure (.obs .silent)
+  | "error" => pure (.error (← J.getHex j "text"))
+  | _ => pure (.obs .other)
+
+def RawObs.resolve (shard : Int) (leader : Str) : RawObs → Obs
+  | .obs o => o
+  | .error text => if isInfixB leader text then .refusedNaming shard leader else .other
 
 structure ImplObs where
-  obs : Obs
+  obs : RawObs
   unchanged : Bool
   storesAfter : List Int
 
@@ -158,7 +179,11 @@ def doHistory (a : Json) : Except String Json := do
       let storesAfterM := st'.stores.keys
       let jm : Bool := decide (JudgeStep me sh pre e (obsOf r) (unchangedM = true) storesAfterM)
       let (ji, impls') := match impls with
-        | some (o :: os) => (J.bool (decide (JudgeStep me shI pre e o.obs (o.unchanged = true) o.storesAfter)), some os)
+        | some (o :: os) =>
+          let ob : Obs := match e with
+            | .allocate u _ | .acquire u _ _ => o.obs.resolve (shI u) ((leaderAfter me pre (shI u)).getD [])
+            | _ => o.obs.resolve 0 []
+          (J.bool (decide (JudgeStep me shI pre e ob (o.unchanged = true) o.storesAfter)), some os)
         | some [] => (Json.null, some [])
         | none => (Json.null, none)
       let u? : Option Str := match e with
